@@ -321,6 +321,17 @@ func (d *decCtx) spec(s *gen.SpecM, attrs map[string]ast.Node, blocks map[string
 		return v
 	case gen.SLiteral:
 		return s.Literal
+	case gen.SExpr:
+		r := Eval(ast.Var{Name: s.ExprVar}, d.env)
+		if r.Unspec != "" {
+			d.un = r.Unspec
+			return cty.DynamicVal
+		}
+		if r.Err {
+			d.err = true
+			return cty.DynamicVal
+		}
+		return r.V
 	case gen.SBlockLabel:
 		if s.Index >= len(labels) {
 			d.err = true
